@@ -729,6 +729,11 @@ WITNESSES = {
     "F-matmul-1d-left": {"op": "matmul", "a": spec_of(np.array([1, 2, 3]), "coo"), "b": spec_of(np.arange(24).reshape(1, 2, 3, 4) % 5 - 2, "nd")},
     "F-matmul-empty-batch": {"op": "matmul", "a": spec_of(np.zeros((0, 2, 1), dtype=np.int64), "coo"), "b": spec_of(np.zeros((0, 1, 3), dtype=np.int64), "coo")},
     "F-dot-1d-length-mismatch": {"op": "dot", "a": spec_of(np.array([2]), "coo"), "b": spec_of(np.array([1, 3]), "coo")},
+    "F-int32-sum-upcast": {"op": "dot", "a": spec_of(np.array([1, 2]), "coo", dtype="int32"), "b": spec_of(np.array([3, 4]), "coo", dtype="int32")},
+    "F-csc-nd-sparse-complex": {"op": "tensordot", "a": spec_of(np.array([[1, 0], [2, 0], [0, 3]]), "gcxs", [1], dtype="complex128"),
+                                "b": spec_of(np.array([[1, 1], [0, 1]]), "nd", dtype="complex128"), "axes": [[1], [0]], "rt": "coo"},
+    "F-complex-negzero-mixed": {"op": "outer", "a": spec_of(np.array([1, 0, 2]), "coo", dtype="complex128"),
+                                "b": spec_of(np.array([1, -2, 3]), "nd", dtype="complex128")},
     "F-tensordot-empty-return-type": {"op": "tensordot", "a": spec_of(np.zeros((2, 0), dtype=np.int64), "coo"), "b": spec_of(np.zeros((0, 3), dtype=np.int64), "coo"),
                                       "axes": [[1], [0]], "rt": "nd"},
 }
